@@ -377,4 +377,211 @@ theorem xld_pred_api (cls : Cls) (xs : List Val) (p : Pos) (k f opx op vq v : St
     refine xa_select_api cls xs _ _ vals d fuel hq hpc (htok0.trans htok) (fun rl => ?_)
     exact (hsel rl).1 _ (by simp)
 
+/-! ### chained selections `P[k1 op v1]/items[k2 op v2]/f` in an n0list-rooted tree -/
+
+/-- API layer, list receiver, when the two values of `return_lists` collect different lists (chained selections) -/
+theorem xld_select_api2 (lc : Cls) (xs : List Val) (xp : Str) (toks : List Str) (valsT valsF : List Val) (d : Val)
+    (fuel : Nat) (hq : startsWith xp ['?'] = false) (hpc : hasPathChar xp = true) (htok : tokenize xp = toks)
+    (hT : Sel2Coll (.list lc xs) true (findL fuel (.list lc xs) [] toks (.at []) true slash) valsT)
+    (hF : Sel2Coll (.list lc xs) false (findL fuel (.list lc xs) [] toks (.at []) false slash) valsF) :
+    get fuel (.list lc xs) xp d = (.list lc xs, .ok (if valsT.isEmpty then d else .list .n0 valsT)) ∧
+    getItem fuel (.list lc xs) xp = (.list lc xs, if valsT.isEmpty then .error .IndexError else .ok (.list .n0 valsT)) ∧
+    first fuel (.list lc xs) xp d = (.list lc xs, .ok (firstOf valsF d)) := by
+  obtain ⟨r1, hr1, hf1, hv1⟩ := hT
+  obtain ⟨r0, hr0, hf0, hv0⟩ := hF
+  refine ⟨?_, ?_, ?_⟩
+  · rw [get, xa_getCore_of_findL lc xs xp toks d false true fuel r1 hq hpc htok hr1]
+    cases he : valsT.isEmpty with
+    | true => simp [hf1, he]
+    | false =>
+      have : r1.isFound = true := by simp [hf1, he]
+      simp [this, hv1 this, collect]
+  · rw [getItem, xa_getCore_of_findL lc xs xp toks Val.none true true fuel r1 hq hpc htok hr1]
+    cases he : valsT.isEmpty with
+    | true => simp [hf1, he]
+    | false =>
+      have : r1.isFound = true := by simp [hf1, he]
+      simp [this, hv1 this, collect]
+  · exact first_of_collect valsF
+      (fun d' => xa_getCore_of_findL lc xs xp toks d' false false fuel r0 hq hpc htok hr0) hf0 hv0 d
+
+/-- the inner steps `items[k2 op v2]`, `f` as a continuation of the outer predicate step, at the record list at `p` -/
+theorem xld_inner_cont (t : Val) (rl : Bool) (p : Pos) (lc : Cls) (rs : List Val) (items k2 f opx2 op2 vq2 v2 : Str)
+    (hitems : PlainKey items) (hk2 : FieldKey k2) (hop2 : OpSpell opx2 op2) (hlit2 : LitSpell vq2 v2)
+    (hv2 : PlainLit v2) (hf : PlainKey f) (hin : Sel3InnerOK items k2 (.str v2) rs) :
+    ∀ gs, Sel3Norm gs t p (.list lc rs) → ∀ (j : Nat) (c : Cls) (kvs' : List (Str × Val)),
+      rs[j]? = some (.dict c kvs') → ∀ fu ≥ 2 * p.length + (rs.map (sel2InnerLen items)).sum + 15, Sel2Out t
+        (findD fu t [] false false [items ++ bracket (k2 ++ opx2 ++ vq2), f] (.at (p ++ [.idx j])) rl
+          ('/' :: sel2Render (gs ++ [.br (natStr j)])))
+        (sel3Inner items k2 f op2 (.str v2) rl (.dict c kvs')) := by
+  intro gs hn j c kvs' hj fu hfu
+  exact sel3_inner_cont t rl _ _ c kvs' items k2 f opx2 op2 vq2 v2 _ (hn.snoc_idx hj) hitems hk2 hf hop2 hlit2 hv2
+    (fun x hx => hin c kvs' x (List.mem_of_getElem? hj) hx) (sel2_le_sum (sel2InnerLen items) rs j _ hj) fu
+    (by simp at hfu ⊢; omega)
+
+/-- **Chained selection on a list root that is itself the outer record list, token level** -/
+theorem xld_chained_root (lc : Cls) (rs : List Val) (rl : Bool) (k1 opx1 op1 vq1 v1 items k2 opx2 op2 vq2 v2 f : Str)
+    (hk1 : FieldKey k1) (hop1 : OpSpell opx1 op1) (hlit1 : LitSpell vq1 v1)
+    (hv1 : PlainLit v1) (hitems : PlainKey items) (hk2 : FieldKey k2) (hop2 : OpSpell opx2 op2) (hlit2 : LitSpell vq2 v2)
+    (hv2 : PlainLit v2) (hf : PlainKey f) (hrs : ∀ r ∈ rs, isDict r = true)
+    (hg : ∀ c kvs' kv, Val.dict c kvs' ∈ rs → lookup k1 kvs' = some kv → textGuard kv (.str v1) = false)
+    (hin : Sel3InnerOK items k2 (.str v2) rs)
+    (fuel : Nat) (hfuel : fuel ≥ rs.length + (rs.map (sel2InnerLen items)).sum + 26) :
+    Sel2Coll (.list lc rs) rl
+      (findL fuel (.list lc rs) [] [bracket (k1 ++ opx1 ++ vq1), items ++ bracket (k2 ++ opx2 ++ vq2), f] (.at []) rl slash)
+      (sel3Chained k1 op1 (.str v1) items k2 f op2 (.str v2) rl rs) := by
+  have hopc := opSpell_canon hop1
+  have hs1 : splitNameIndex (bracket (k1 ++ opx1 ++ vq1)) = .ok ([], .cond k1 op1 (.str v1)) := by
+    simpa using split_cond [] k1 opx1 op1 vq1 v1 (Or.inl rfl) hk1.cond hop1 hlit1 hv1
+  obtain ⟨g, rfl⟩ : ∃ g, fuel = g + 1 := ⟨fuel - 1, by omega⟩
+  rw [xa_findL_cond g _ [] rl (.at []) (.list lc rs) slash _ k1 op1 (.str v1) _ rfl hs1]
+  have := sel3_cond_list (.list lc rs) rl true [] [] k1 op1 _ (.str v1) lc rs [items ++ bracket (k2 ++ opx2 ++ vq2), f]
+    (sel3Inner items k2 f op2 (.str v2) rl) _ (.nil _) hk1.plain hk1.notText hrs hs1
+    (sel2_tok_text_bare op1 v1 hopc hv1) hopc hg (by simp)
+    (xld_inner_cont (.list lc rs) rl [] lc rs items k2 f opx2 op2 vq2 v2 hitems hk2 hop2 hlit2 hv2 hf hin [] (.nil _))
+    g (by simp; omega)
+  simpa [sel2Render, slash, sel3Chained] using this
+
+/-- **Chained selection below a list root, token level** (`toksP` any spelling of the position of the outer record list; the
+merged form when it ends in a key) -/
+theorem xld_chained_spelled (t : Val) (rl : Bool) {toksP : List Str} {p : Pos} {lc : Cls} {rs : List Val}
+    (k1 opx1 op1 vq1 v1 items k2 opx2 op2 vq2 v2 f : Str) (hroot : ∃ cls xs, t = .list cls xs)
+    (hs : Sel3Spells toksP t p (.list lc rs)) (hne : toksP ≠ []) (hk1 : FieldKey k1) (hop1 : OpSpell opx1 op1)
+    (hlit1 : LitSpell vq1 v1)
+    (hv1 : PlainLit v1) (hitems : PlainKey items) (hk2 : FieldKey k2) (hop2 : OpSpell opx2 op2) (hlit2 : LitSpell vq2 v2)
+    (hv2 : PlainLit v2) (hf : PlainKey f) (hrs : ∀ r ∈ rs, isDict r = true)
+    (hg : ∀ c kvs' kv, Val.dict c kvs' ∈ rs → lookup k1 kvs' = some kv → textGuard kv (.str v1) = false)
+    (hin : Sel3InnerOK items k2 (.str v2) rs)
+    (fuel : Nat) (hfuel : fuel ≥ 10 * toksP.length + rs.length + (rs.map (sel2InnerLen items)).sum + 30) :
+    Sel2Coll t rl
+      (findL fuel t [] (toksP ++ [bracket (k1 ++ opx1 ++ vq1), items ++ bracket (k2 ++ opx2 ++ vq2), f]) (.at []) rl slash)
+      (sel3Chained k1 op1 (.str v1) items k2 f op2 (.str v2) rl rs) ∧
+    (∀ toks' name, toksP = toks' ++ [name] → PlainKey name → toks' ≠ [] →
+      Sel2Coll t rl
+        (findL fuel t [] (toks' ++ [name ++ bracket (k1 ++ opx1 ++ vq1), items ++ bracket (k2 ++ opx2 ++ vq2), f])
+          (.at []) rl slash)
+        (sel3Chained k1 op1 (.str v1) items k2 f op2 (.str v2) rl rs)) := by
+  have hq : getAt t p = some (.list lc rs) := hs.spells.getAt
+  have hpl := hs.pos_length
+  have hopc := opSpell_canon hop1
+  have hs1 : splitNameIndex (bracket (k1 ++ opx1 ++ vq1)) = .ok ([], .cond k1 op1 (.str v1)) := by
+    simpa using split_cond [] k1 opx1 op1 vq1 v1 (Or.inl rfl) hk1.cond hop1 hlit1 hv1
+  have hcont := xld_inner_cont t rl p lc rs items k2 f opx2 op2 vq2 v2 hitems hk2 hop2 hlit2 hv2 hf hin
+  have hD : ∀ gs, Sel3Norm gs t p (.list lc rs) → ∀ fu ≥ 4 * p.length + (rs.map (sel2InnerLen items)).sum + rs.length + 24, ∀ e,
+      Sel2Coll t rl (findD fu t [] false e [bracket (k1 ++ opx1 ++ vq1), items ++ bracket (k2 ++ opx2 ++ vq2), f] (.at p) rl
+        ('/' :: sel2Render gs)) (sel3Chained k1 op1 (.str v1) items k2 f op2 (.str v2) rl rs) :=
+    fun gs hn fu hfu e => sel3_cond_list t rl e gs p k1 op1 _ (.str v1) lc rs _ _ _ hn hk1.plain hk1.notText hrs hs1
+      (sel2_tok_text_bare op1 v1 hopc hv1) hopc hg (by simp) (hcont gs hn) fu (by omega)
+  refine ⟨?_, ?_⟩
+  · refine xld_tail t rl hs hne hroot _ (by simp) _ (4 * p.length + (rs.map (sel2InnerLen items)).sum + rs.length + 25)
+      (fun gs hn fu hfu e => hD gs hn fu (by omega) e) ?_ fuel (by omega)
+    intro gs hn fu hfu
+    exact xld_L_of_D t rl p _ _ _ [] _ _ _ _ hq hs1 (Or.inr ⟨k1, op1, .str v1, rfl, rfl⟩) (hD gs hn) fu hfu
+  · intro toks' name htoks hname hne'
+    subst htoks
+    obtain ⟨p', cls, kvs, rfl, hs', hl⟩ := sel3_spells_snoc_key_inv name hname toks' _ _ _ hs
+    have hpl' := hs'.pos_length
+    refine xld_tail_dict t rl hs' hne' hroot _ (by simp) _
+      (4 * p'.length + (rs.map (sel2InnerLen items)).sum + rs.length + 30) ?_ fuel (by simp at hfuel ⊢; omega)
+    intro gs hn fu hfu e
+    exact sel3_keycond_list t rl e gs p' name k1 opx1 op1 vq1 v1 cls kvs lc rs _ _
+      (2 * (p' ++ [Seg.key name]).length + (rs.map (sel2InnerLen items)).sum + 15) hn hname hk1 hop1 hlit1 hv1 hl hrs hg
+      (by simp) (fun j c kvs' hj fu hfu => hcont (gs ++ [.key name]) (hn.snoc_key hname hl) j c kvs' hj fu hfu) fu
+      (by simp; omega)
+
+/-- **`P[k1 op v1]/items[k2 op v2]/f` in an n0list-rooted tree** (`P` canonical: empty - the root is the outer record list - or
+starting with an index; with or without the leading '/') through `get`, item access and `first` -/
+theorem xld_chained_api (cls : Cls) (xs : List Val) (p : Pos)
+    (k1 opx1 op1 vq1 v1 items k2 opx2 op2 vq2 v2 f : Str) (lc : Cls) (rs : List Val) (d : Val)
+    (hp : PlainPos p) (hhead : ∃ n rest, p = .idx n :: rest) (hk1 : FieldKey k1) (hop1 : OpSpell opx1 op1)
+    (hlit1 : LitSpell vq1 v1)
+    (hv1 : PlainLit v1) (hitems : PlainKey items) (hk2 : FieldKey k2) (hop2 : OpSpell opx2 op2) (hlit2 : LitSpell vq2 v2)
+    (hv2 : PlainLit v2) (hf : PlainKey f)
+    (hget : getAt (.list cls xs) p = some (.list lc rs)) (hrs : ∀ r ∈ rs, isDict r = true)
+    (hg : ∀ c kvs' kv, Val.dict c kvs' ∈ rs → lookup k1 kvs' = some kv → textGuard kv (.str v1) = false)
+    (hin : Sel3InnerOK items k2 (.str v2) rs)
+    (fuel : Nat) (hfuel : fuel ≥ 10 * p.length + rs.length + (rs.map (sel2InnerLen items)).sum + 30)
+    (lead : Str) (hlead : lead ∈ [[], slash]) :
+    let xp := lead ++ renderPos p ++ bracket (k1 ++ opx1 ++ vq1) ++ slash ++ items ++ bracket (k2 ++ opx2 ++ vq2) ++ slash ++ f
+    let valsT := sel3Chained k1 op1 (.str v1) items k2 f op2 (.str v2) true rs
+    let valsF := sel3Chained k1 op1 (.str v1) items k2 f op2 (.str v2) false rs
+    get fuel (.list cls xs) xp d = (.list cls xs, .ok (if valsT.isEmpty then d else .list .n0 valsT)) ∧
+    getItem fuel (.list cls xs) xp = (.list cls xs, if valsT.isEmpty then .error .IndexError else .ok (.list .n0 valsT)) ∧
+    first fuel (.list cls xs) xp d = (.list cls xs, .ok (firstOf valsF d)) := by
+  intro xp valsT valsF
+  have hne : p ≠ [] := by obtain ⟨n, rest, rfl⟩ := hhead; simp
+  have hsp := sel3_spells_merged p (.list cls xs) _ hp hget
+  have hlen := mergedToks_length_le p
+  have hsel := fun rl => xld_chained_spelled (.list cls xs) rl k1 opx1 op1 vq1 v1 items k2 opx2 op2 vq2 v2 f ⟨cls, xs, rfl⟩ hsp
+    (mergedToks_ne_nil p hne) hk1 hop1 hlit1 hv1 hitems hk2 hop2 hlit2 hv2 hf hrs hg hin fuel (by omega)
+  have hgd : GoodG [.br (k1 ++ opx1 ++ vq1), .key items, .br (k2 ++ opx2 ++ vq2), .key f] :=
+    ⟨sel2_gBr_cond k1 opx1 op1 vq1 v1 hk1.cond hop1 hlit1 hv1, hitems.gKey,
+      sel2_gBr_cond k2 opx2 op2 vq2 v2 hk2.cond hop2 hlit2 hv2, hf.gKey, trivial⟩
+  obtain ⟨htok0, hq, hpc⟩ := xld_tokenize p _ hp hhead hgd lead hlead
+  have hxp : xp = lead ++ renderPos p ++ sel2Render [.br (k1 ++ opx1 ++ vq1), .key items, .br (k2 ++ opx2 ++ vq2), .key f] := by
+    simp [xp, sel2Render, sel2RenderSeg, slash, List.append_assoc]
+  rw [hxp]
+  obtain ⟨p', s, rfl⟩ : ∃ p' s, p = p' ++ [s] := ⟨p.dropLast, p.getLast hne, (List.dropLast_concat_getLast hne).symm⟩
+  obtain ⟨hp', hs⟩ := sel2_plainPos_append hp
+  cases s with
+  | key name =>
+    have hname : PlainKey name := hs.1
+    have htok : sel2Toks (sel2Embed (p' ++ [.key name]) ++ [.br (k1 ++ opx1 ++ vq1), .key items, .br (k2 ++ opx2 ++ vq2), .key f])
+        = mergedToks p' ++ [name ++ bracket (k1 ++ opx1 ++ vq1), items ++ bracket (k2 ++ opx2 ++ vq2), f] := by
+      rw [sel2_embed_append]
+      simp only [sel2Embed, List.append_assoc, List.cons_append, List.nil_append]
+      rw [sel2_toks_append_key_br, sel2_toks_embed]
+      simp [sel2Toks]
+    have hne' := mergedToks_ne_nil p' (xld_head_snoc hhead ⟨name, rfl⟩)
+    exact xld_select_api2 cls xs _ _ valsT valsF d fuel hq hpc (htok0.trans htok)
+      ((hsel true).2 (mergedToks p') name (mergedToks_snoc_key p' name) hname hne')
+      ((hsel false).2 (mergedToks p') name (mergedToks_snoc_key p' name) hname hne')
+  | idx m =>
+    have htok : sel2Toks (sel2Embed (p' ++ [.idx m]) ++ [.br (k1 ++ opx1 ++ vq1), .key items, .br (k2 ++ opx2 ++ vq2), .key f])
+        = mergedToks (p' ++ [.idx m]) ++ [bracket (k1 ++ opx1 ++ vq1), items ++ bracket (k2 ++ opx2 ++ vq2), f] := by
+      rw [sel2_embed_append]
+      simp only [sel2Embed, List.append_assoc, List.cons_append, List.nil_append]
+      rw [sel2_toks_append_br_br, ← sel2_toks_embed, sel2_embed_append]
+      simp [sel2Toks, sel2Embed]
+    exact xld_select_api2 cls xs _ _ valsT valsF d fuel hq hpc (htok0.trans htok) (hsel true).1 (hsel false).1
+
+/-- the same for the root list being the outer record list itself: `[k1 op v1]/items[k2 op v2]/f`, `/[k1 op v1]/items[…]/f` -/
+theorem xld_chained_root_api (lc : Cls) (rs : List Val)
+    (k1 opx1 op1 vq1 v1 items k2 opx2 op2 vq2 v2 f : Str) (d : Val)
+    (hk1 : FieldKey k1) (hop1 : OpSpell opx1 op1) (hlit1 : LitSpell vq1 v1)
+    (hv1 : PlainLit v1) (hitems : PlainKey items) (hk2 : FieldKey k2) (hop2 : OpSpell opx2 op2) (hlit2 : LitSpell vq2 v2)
+    (hv2 : PlainLit v2) (hf : PlainKey f) (hrs : ∀ r ∈ rs, isDict r = true)
+    (hg : ∀ c kvs' kv, Val.dict c kvs' ∈ rs → lookup k1 kvs' = some kv → textGuard kv (.str v1) = false)
+    (hin : Sel3InnerOK items k2 (.str v2) rs)
+    (fuel : Nat) (hfuel : fuel ≥ rs.length + (rs.map (sel2InnerLen items)).sum + 26)
+    (lead : Str) (hlead : lead ∈ [[], slash]) :
+    let xp := lead ++ bracket (k1 ++ opx1 ++ vq1) ++ slash ++ items ++ bracket (k2 ++ opx2 ++ vq2) ++ slash ++ f
+    let valsT := sel3Chained k1 op1 (.str v1) items k2 f op2 (.str v2) true rs
+    let valsF := sel3Chained k1 op1 (.str v1) items k2 f op2 (.str v2) false rs
+    get fuel (.list lc rs) xp d = (.list lc rs, .ok (if valsT.isEmpty then d else .list .n0 valsT)) ∧
+    getItem fuel (.list lc rs) xp = (.list lc rs, if valsT.isEmpty then .error .IndexError else .ok (.list .n0 valsT)) ∧
+    first fuel (.list lc rs) xp d = (.list lc rs, .ok (firstOf valsF d)) := by
+  intro xp valsT valsF
+  have hsel := fun rl => xld_chained_root lc rs rl k1 opx1 op1 vq1 v1 items k2 opx2 op2 vq2 v2 f hk1 hop1 hlit1 hv1 hitems hk2 hop2
+    hlit2 hv2 hf hrs hg hin fuel hfuel
+  have hgd : GoodG [.br (k1 ++ opx1 ++ vq1), .key items, .br (k2 ++ opx2 ++ vq2), .key f] :=
+    ⟨sel2_gBr_cond k1 opx1 op1 vq1 v1 hk1.cond hop1 hlit1 hv1, hitems.gKey,
+      sel2_gBr_cond k2 opx2 op2 vq2 v2 hk2.cond hop2 hlit2 hv2, hf.gKey, trivial⟩
+  have hts : sel2Toks [.br (k1 ++ opx1 ++ vq1), .key items, .br (k2 ++ opx2 ++ vq2), .key f]
+      = [bracket (k1 ++ opx1 ++ vq1), items ++ bracket (k2 ++ opx2 ++ vq2), f] := by simp [sel2Toks]
+  simp only [List.mem_cons, List.not_mem_nil, or_false] at hlead
+  rcases hlead with rfl | rfl
+  · have hxp : xp = '[' :: ((k1 ++ opx1 ++ vq1) ++ ']' :: sel2Render [.key items, .br (k2 ++ opx2 ++ vq2), .key f]) := by
+      simp [xp, sel2Render, sel2RenderSeg, slash, bracket, List.append_assoc]
+    have htok := sel3_tokenize_render_br (k1 ++ opx1 ++ vq1) [.key items, .br (k2 ++ opx2 ++ vq2), .key f] hgd
+    rw [← hxp, hts] at htok
+    exact xld_select_api2 lc rs xp _ valsT valsF d fuel (by rw [hxp]; simp [startsWith]) (by rw [hxp]; simp [hasPathChar]) htok
+      (hsel true) (hsel false)
+  · have hxp : xp = '/' :: sel2Render [.br (k1 ++ opx1 ++ vq1), .key items, .br (k2 ++ opx2 ++ vq2), .key f] := by
+      simp [xp, sel2Render, sel2RenderSeg, slash, bracket, List.append_assoc]
+    have htok := sel2_tokenize _ hgd
+    rw [← hxp, hts] at htok
+    exact xld_select_api2 lc rs xp _ valsT valsF d fuel (by rw [hxp]; exact sel2_noQ_cons _) (by rw [hxp]; exact sel2_hasPathChar_cons _)
+      htok (hsel true) (hsel false)
+
 end N0.XPath
